@@ -777,7 +777,10 @@ func (sd *SpecAnalyser) compareSchema(location DifferenceLocation, schema1, sche
 	typeDiffs := sd.CompareProps(&schema1.SchemaProps, &schema2.SchemaProps)
 	if len(typeDiffs) > 0 {
 		sd.addDiffs(location, typeDiffs)
-		return
+		if !reflect.DeepEqual(schema1.Type, schema2.Type) {
+			// schemas of another kind: what they are made of cannot be compared
+			return
+		}
 	}
 
 	if isArray(schema1) {
